@@ -109,6 +109,7 @@ def _work(spec):
                         except Exception as e:  # replay construction must never turn into a verdict
                             inst['replay'], inst['reproduced'] = {'replay_error': repr(e)}, None
             out['instances'].append(inst)
+    out['second'] = dict(E.SECOND_STATS)
     return out
 
 
@@ -142,6 +143,15 @@ def verify_function(chk, fname, entry, post=None, timeout_ms=10000, max_paths=40
         fr.assumed |= o['assumed']
     for a in sorted(fr.assumed):
         chk.assume(a)
+    if E.SECOND_SOLVER:
+        agg = chk.extra.setdefault('second_solver_cvc5', {'checked': 0, 'agree_unsat': 0, 'unknown': 0, 'errors': 0, 'sat_disagreements': 0})
+        for o in outs:
+            st = o.get('second', {})
+            for k in ('checked', 'agree_unsat', 'unknown', 'errors'):
+                agg[k] += st.get(k, 0)
+            agg['sat_disagreements'] += len(st.get('sat_disagreements', []))
+            for d in st.get('sat_disagreements', [])[:2]:
+                chk.error('%s.second_solver' % fname, 'cvc5 answers sat on a query z3 answered unsat: %s' % d[:300])
     bad = sorted({d for k, d in fr.paths if k == 'unsupported'})
     if bad:
         chk.obligation('%s.supported' % fname, fname, 'checker', report.ERROR, 0.0,
